@@ -235,7 +235,8 @@ def main(argv=None) -> int:
     if exhaustive:
         evidence["coverage"]["exhaustive_subspaces"] = exhaustive
     if not args.only:
-        write_evidence(prop, evidence)
+        # runs against another checkout (JMON_REPO: seeded changes) must not overwrite the evidence of /repo
+        write_evidence(prop, evidence, sub=".work/evidence_other_repo" if os.environ.get("JMON_REPO") else "evidence")
 
     for l in out_lines:
         print(l)
@@ -253,7 +254,7 @@ def main(argv=None) -> int:
     return 0
 
 
-def write_evidence(prop: str, evidence: Dict[str, Any]) -> None:
+def write_evidence(prop: str, evidence: Dict[str, Any], sub: str = "evidence") -> None:
     import jsonschema
 
     with open(os.path.join(ROOT, "schemas", "EVIDENCE.schema.json")) as f:
@@ -265,11 +266,11 @@ def write_evidence(prop: str, evidence: Dict[str, Any]) -> None:
         jsonschema.validate(ev, schema)
     except jsonschema.ValidationError as e:
         ev["coverage"]["schema_problem"] = str(e.message)[:300]
-    os.makedirs(os.path.join(ROOT, "evidence"), exist_ok=True)
-    tmp = os.path.join(ROOT, "evidence", f".{prop}.json.tmp")
+    os.makedirs(os.path.join(ROOT, sub), exist_ok=True)
+    tmp = os.path.join(ROOT, sub, f".{prop}.json.tmp")
     with open(tmp, "w") as f:
         json.dump(ev, f, indent=1, sort_keys=True)
-    os.replace(tmp, os.path.join(ROOT, "evidence", f"{prop}.json"))
+    os.replace(tmp, os.path.join(ROOT, sub, f"{prop}.json"))
 
 
 if __name__ == "__main__":
